@@ -2,7 +2,7 @@
    to the connection's receive state (atom cache, fragment assembler) and what it makes the call return.
    Composes the models of the decoder (Codec/Decode), the distribution header reader (Codec/DistHeader), the fragment
    assembler (Dist/Fragment) and the control message parser (Dist/Control).  Definitions only. *)
-From EDP Require Import Base.Bytes Term.Term Gen.Tags Gen.FragConsts Gen.ControlTable Codec.Decode Codec.DistHeader
+From EDP Require Import Base.Bytes Term.Term Gen.Tags Gen.FragConsts Gen.FramingConsts Gen.ControlTable Codec.Decode Codec.DistHeader
   Dist.Fragment Dist.Control Dist.Framing.
 
 Record rstate := { r_cache : list (N * bytes); r_asm : asm }.
@@ -124,6 +124,56 @@ Fixpoint receive (fuel : nat) (cfg : dcfg) (st : rstate) (cs : list chunk) : rre
           | ODeliver m pl => (RMsg m pl, st', cs')
           | OError => (RFail, st', cs')
           | OContinue => receive f cfg st' cs'
+          end
+      end
+  end.
+
+(* ---------- the receive path of a connection whose read half was taken ----------
+   Connection::receive_message_from_read_half (used by the node's receiver task): its own reading of the length prefix
+   with the connection's size limit, pass-through frames only, no receive state *)
+Definition handle_frame_half (cfg : dcfg) (data : bytes) : outcome :=
+  match data with
+  | [] => OContinue
+  | b0 :: rest0 =>
+      if b0 =? pass_through then
+        match decode_trailing cfg rest0 with
+        | Some (ctl, []) => to_outcome ctl None
+        | Some (ctl, remaining) =>
+            match decode_trailing cfg remaining with
+            | Some (msg, _) => to_outcome ctl (Some msg)
+            | None => OError
+            end
+        | None => OError
+        end
+      else OError
+  end.
+
+Definition read_framed_half (cs : list chunk) : rres * list chunk :=
+  match read_exact 4 cs with
+  | None => (RErr Eof, [])
+  | Some (p, r) =>
+      let l := unbe p in
+      if l =? 0 then (ROk [], r)
+      else if conn_max_message_size <? l then (RErr TooLarge, r)
+      else match read_exact l r with
+           | None => (RErr Eof, [])
+           | Some (b, r') => (ROk b, r')
+           end
+  end.
+
+Fixpoint receive_half (fuel : nat) (cfg : dcfg) (cs : list chunk) : rresult * list chunk :=
+  match fuel with
+  | O => (REof, cs)
+  | S f =>
+      let '(r, cs') := read_framed_half cs in
+      match r with
+      | RErr Eof => (REof, cs')
+      | RErr TooLarge => (RTooLarge, cs')
+      | ROk data =>
+          match handle_frame_half cfg data with
+          | ODeliver m pl => (RMsg m pl, cs')
+          | OError => (RFail, cs')
+          | OContinue => receive_half f cfg cs'
           end
       end
   end.
